@@ -20,7 +20,7 @@ class C14(Prop):
         "cases = the deterministic server-stack workflow with a delayed retry (retry delay D in {2,5,20}) and/or a final "
         "wait_for_event(timeout=T in {4,15}) nobody answers in time, served by the real WorkflowServer with a generated idle_timeout "
         "I in {1,3,6,10,30,never} (both sides of D and T), optionally a process stop + reboot over the same store at a generated virtual "
-        "instant, and a late human reply at t=200 for waits without timeout. Oracle at the virtual horizon (>> D, T, I): the handler is "
+        "instant, and a late human reply at t=200 for waits without timeout (waits with a timeout get no reply at all). Oracle at the virtual horizon (>> D, T, I): the handler is "
         "terminal and 'completed'; every job was retried to completion; a wait whose timeout was due before the late reply ended with "
         "TimeoutError (the workflow records reply='timeout'), not with the late reply; a handler still 'running' is the violation. "
         "Non-trivial = an idle release or a restart happened strictly while a retry delay or a waiter timeout was pending."
@@ -98,7 +98,8 @@ class C14(Prop):
                         genwf.CUR = genwf.Rec({"ties": case["ties"], "ext": []})
                         life = await srv.start_life(store, srv.det_factory(case, log), idle_timeout=idle, keep=harness)
                         cur["life"] = life
-                if case.get("wait"):
+                if case.get("wait") and not case.get("wait_timeout"):
+                    # only a wait WITHOUT timeout needs a human to end it; a wait with a timeout must end by itself
                     await asyncio.sleep(max(0.0, LATE - VClock.t))
                     row = await srv.handler_row(store, "h1")
                     if row is not None and row.status == "running":
